@@ -90,11 +90,13 @@ def add_time_variable(ifileo, key):
         off = (sdate - rdate).total_seconds()
         if key == 'time':
             tmax = max(1, len(ifileo.dimensions['TSTEP']))
-            time = np.arange(0, tmax, dtype='i') * tmpseconds + off
+            # in double precision: int32 steps times seconds wrap around
+            # after 68 years
+            time = np.arange(0, tmax, dtype='d') * tmpseconds + off
             dims = ('TSTEP',)
         elif key == 'time_bounds':
             tmax = max(1, len(ifileo.dimensions['TSTEP'])) + 1
-            time = np.arange(0, tmax, dtype='i') * tmpseconds + off
+            time = np.arange(0, tmax, dtype='d') * tmpseconds + off
             time = time.repeat(2, 0)[1:-1].reshape(-1, 2)
             dims = ('TSTEP', 'tnv')
             if 'tnv' not in ifileo.dimensions.keys():
